@@ -240,12 +240,12 @@ def check(prop, mod, a, seed, t0):
     if unreached:
         print("CHECKER-ERROR vacuity guard: unreachable statements in", sorted(unreached))
         return 3
+    if unsupported or undecided:
+        return 2
     expected = getattr(mod, "EXPECTED_MIN_OBLIGATIONS", 1)
     if len(obs) < expected:
         print(f"CHECKER-ERROR obligation count {len(obs)} < expected minimum {expected}")
         return 3
-    if unsupported or undecided:
-        return 2
     if bounded_err:
         print("CHECKER-ERROR bounded stand-in failed to run:", bounded_err)
         return 3
